@@ -149,6 +149,12 @@ func (n *Node) Build() ast.ItemNode {
 			}
 		}
 	}
+	// the argument slice is the caller's: it is overwritten once the factory has returned
+	defer func() {
+		for i := range args {
+			args[i] = "overwritten_by_the_caller"
+		}
+	}()
 	switch n.Kind {
 	case "L":
 		return ast.NewListNode(args...)
